@@ -10,7 +10,8 @@ use soroban_sdk::xdr::ScVal;
 use soroban_sdk::Address;
 
 // the default destination has mixed case: chain names are opaque strings and must be announced byte for byte
-const CHAINS: [&str; 4] = ["Ethereum-Sepolia", "avalanche", "never-trusted", HUB_CHAIN];
+// the third one is the service's own chain name and is never trusted in any history
+const CHAINS: [&str; 4] = ["Ethereum-Sepolia", "avalanche", "stellar", HUB_CHAIN];
 const SALTS: [[u8; 32]; 4] = [[0x51; 32], [0x52; 32], [0x53; 32], [0x59; 32]];
 
 #[derive(Clone, Hash)]
@@ -115,6 +116,9 @@ impl Scenario for C18 {
             // blanks are characters like any other: representable, and announced as they are
             (b" ".to_vec(), b"W".to_vec(), 7, Some(true)),
             (b"W".to_vec(), b"SPC ".to_vec(), 7, Some(true)),
+            // NUL bytes too (zero-padded asset codes): representable, announced as they are
+            (b"W".to_vec(), b"PAD\0".to_vec(), 7, Some(true)),
+            (b"\0".to_vec(), b"W".to_vec(), 7, Some(true)),
         ];
         canon.push(CanonTok { addr: iw.assets[0].clone(), registered: true, representable: Some(true) });
         canon.push(CanonTok { addr: iw.assets[1].clone(), registered: false, representable: Some(true) });
@@ -175,6 +179,8 @@ impl Scenario for C18 {
             v.push(Act::Interchain { caller: 0, salt: 1, dest: 0, gas, auth: 0 });
             v.push(Act::Canonical { tok: 0, spender: 1, dest: 0, gas, auth: 0 });
         }
+        // the gas service named as its own payer, nobody authorising
+        v.push(Act::Canonical { tok: 0, spender: 2, dest: 0, gas: Gas::One, auth: 2 });
         for auth in 1..3u8 {
             v.push(Act::Interchain { caller: 0, salt: 0, dest: 0, gas: Gas::One, auth });
             v.push(Act::Canonical { tok: 0, spender: 0, dest: 0, gas: Gas::One, auth });
@@ -242,7 +248,8 @@ impl Scenario for C18 {
                     Act::Canonical { tok, spender, dest: d, gas, auth } => {
                         out.kind = "remote-canonical";
                         let ct = &ctx.canon[*tok];
-                        let sp = &iw.users[*spender];
+                        // payer 2 is the gas service itself (nobody can sign for it)
+                        let sp = &if *spender == 2 { iw.gas.clone() } else { iw.users[*spender].clone() };
                         let gx = self.gas_amount(*gas, m.gas[*spender]);
                         let signers: Vec<Address> = match auth { 0 => vec![sp.clone()], 1 => vec![iw.users[1 - *spender].clone()], _ => vec![] };
                         call = w.call(
@@ -349,7 +356,7 @@ fn main() {
         let mut o = Opts::new(tier, if thorough { 11 } else { 9 });
         o.min_depth = 2;
         o.xcheck = tier == "thorough";
-        o.rule = "histories of trusted-chain changes (a mixed-case name, a lower-case name, the hub itself) followed by remote deployment requests: deploy_remote_interchain_token for caller U0 / U1 x 4 salts (3 registered by U0 with metadata incl. multi-byte name and decimals 0/7/255; one never used; U1 reusing U0's salts) and deploy_remote_canonical_token for a registered asset contract, an unregistered one and 7 canonical tokens with unusual metadata (256 decimals, empty name, empty symbol, non-UTF-8 name, 255 decimals, a name that is one blank, a symbol ending in a blank); destination trusted / removed again / never trusted / the hub; gas -1, 0, 1, balance, balance+1; authorised by the payer / the other user / nobody. Announced payload, gas_paid and token_deployment_started are compared with the independent ABI encoding of the token's actual metadata; every other balance must stay put".into();
+        o.rule = "histories of trusted-chain changes (a mixed-case name, a lower-case name, the hub itself) followed by remote deployment requests: deploy_remote_interchain_token for caller U0 / U1 x 4 salts (3 registered by U0 with metadata incl. multi-byte name and decimals 0/7/255; one never used; U1 reusing U0's salts) and deploy_remote_canonical_token for a registered asset contract, an unregistered one and 9 canonical tokens with unusual metadata (256 decimals, empty name, empty symbol, non-UTF-8 name, 255 decimals, a name that is one blank, a symbol ending in a blank, a symbol ending in NUL, a name that is one NUL); destination trusted / removed again / never trusted (the service's own chain name) / the hub; the gas service named as its own payer; gas -1, 0, 1, balance, balance+1; authorised by the payer / the other user / nobody. Announced payload, gas_paid and token_deployment_started are compared with the independent ABI encoding of the token's actual metadata; every other balance must stay put".into();
         (C18 { thorough }, o)
     });
 }
